@@ -307,8 +307,14 @@ pub fn run_case(r: &mut Rng, evs: Vec<Ev>) -> String {
 
 /// `public_plan`: None = loopback addresses; Some(configured) = distinct public addresses, nodes told theirs or not
 pub fn run_case_plan(r: &mut Rng, evs: Vec<Ev>, public_plan: Option<bool>) -> String {
+    run_case_caps(r, evs, public_plan, None)
+}
+
+/// `caps`: the servers' store settings (None = the defaults)
+pub fn run_case_caps(r: &mut Rng, evs: Vec<Ev>, public_plan: Option<bool>, caps: Option<(usize, usize, usize, usize)>) -> String {
     let mut net = Net::new(r);
     net.public_plan = public_plan;
+    net.caps = caps;
     let mut steps: Vec<String> = Vec::new();
     let mut seqs = std::collections::HashMap::new();
     for ev in evs.iter() {
@@ -730,6 +736,20 @@ pub fn generate(seed: u64, scale: usize, which: &str) -> Cases {
                 Ev::Get(4, key),
             ];
             o.push("signed-announcement-renewed", run_case(&mut rr, plan));
+        }
+        // servers configured with small stores that are still large enough for everything this history writes (six
+        // keys of every kind, one writer each): nothing acknowledged may be dropped within the configured capacity
+        for caps in [(8usize, 3usize, 7usize, 9usize), (7, 2, 8, 7)] {
+            let mut rr = r.fork();
+            let mut plan = vec![Ev::Join(true, vec![]), Ev::Join(true, vec![0]), Ev::Join(true, vec![0]), Ev::Join(true, vec![1]), Ev::Join(false, vec![2])];
+            let keys: Vec<usize> = (0..24).map(|k| 40 + k).collect();
+            for (n, k) in keys.iter().enumerate() {
+                plan.push(Ev::Put(1 + n % 4, *k));
+            }
+            for (n, k) in keys.iter().enumerate() {
+                plan.push(Ev::Get((n + 2) % 5, *k));
+            }
+            o.push("small-stores-within-capacity", run_case_caps(&mut rr, plan, None, Some(caps)));
         }
         for i in 0..(8 * scale) {
             let mut rr = r.fork();
